@@ -451,6 +451,16 @@ func (t *Trace) Window(beginPath, endPath string) (calls []Syscall, began, compl
 	return calls, began, false
 }
 
+// Marker returns the main thread's first call that mentions path (a marker call).
+func (t *Trace) Marker(path string) (Syscall, bool) {
+	for _, c := range t.Main() {
+		if c.HasPath(path) {
+			return c, true
+		}
+	}
+	return Syscall{}, false
+}
+
 // Markers: a traced child brackets the one operation under test with two harmless
 // failing unlink calls so that the parent can find the operation's window in the log.
 const (
